@@ -1,1 +1,4 @@
 import XPathV.Theorems.C13
+#print axioms XPathV.Theorems.C13.abs_start_indep
+#print axioms XPathV.Theorems.C13.group_preserves_sequence
+#print axioms XPathV.Theorems.C13.rel_compose_child
